@@ -5,6 +5,7 @@ CONSTANTS
   MaxFail = 1
   MaxReg = 1
   MaxRec = 4
+  GenCap <- SmallCap
   Presets <- PresetsQuick
 VIEW View
 INVARIANT Inv
